@@ -84,11 +84,20 @@ class ClassTable:
         from .canon import inline_helpers, positional_calls
         from .loader import canonical_tree
 
+        from .flatten import flatten_objects
+
+        from .specialise import specialise_class_constants
+
+        self.flattened = flatten_objects(self) + specialise_class_constants(self)
         positional_calls(self)
         self.inlined = inline_helpers(self)
-        if self.inlined:
+        if self.inlined or self.flattened:
+            from .canon import recanonicalise_function
+
             for ci in self.by_qual.values():
                 for fn in ci.methods.values():
+                    if self.flattened:
+                        recanonicalise_function(fn)
                     canonical_tree(fn)
 
     # ------------------------------------------------------------------ names
